@@ -2,7 +2,9 @@
 import random
 from typing import Iterator
 
-from core import Case, Prop, SelfCheckFailure
+import json
+
+from core import Case, Prop, SelfCheckFailure, InfraError, run_driver
 from gen import hx, unhx, pool, rbytes
 
 from spacepackets.ccsds.spacepacket import PacketId, PacketSeqCtrl, PacketType, SequenceFlags, SpacePacketHeader
@@ -13,6 +15,7 @@ import spacepackets.ecss.pus_1_verification as s1
 from spacepackets.ecss.pus_1_verification import (
     Service1Tm, VerificationParams, FailureNotice, UnpackParams, Subservice,
 )
+from spacepackets.ecss.tm import PusTm
 from props.c03 import _tm_fields
 
 
@@ -36,9 +39,15 @@ def _fn_fields(f):
 
 
 def _s1_fields(s: Service1Tm):
+    try:
+        ec = _pfe_fields(s.error_code)
+    except AssertionError:
+        # report built without verification parameters for a failure subservice (outside the property)
+        ec = "assertion"
     return {"tm": _tm_fields(s.pus_tm),
             "params": {"req_id": _req_fields(s.tc_req_id), "step_id": _pfe_fields(s.step_id),
-                       "failure": _fn_fields(s.failure_notice)}}
+                       "failure": _fn_fields(s.failure_notice)},
+            "error_code": ec, "is_step_reply": bool(s.is_step_reply), "has_failure_notice": bool(s.has_failure_notice)}
 
 
 def op_req_pack(a):
@@ -73,54 +82,211 @@ def op_req_eq(a):
 
 
 def op_pfe_unpack(a):
-    return _pfe_fields(PacketFieldEnum.unpack(unhx(a["raw"]), a["pfc"]))
+    raw = unhx(a["raw"])
+    f = PacketFieldEnum.unpack(raw, a["pfc"])
+    if bytes(f.pack()) != raw[:f.len()]:
+        raise SelfCheckFailure("PacketFieldEnum: pack(unpack(b)) != b[:width]")
+    return _pfe_fields(f)
 
 
 def op_pfe_pack(a):
     f = PacketFieldEnum(a["pfc"], a["val"])
-    return {"raw": hx(f.pack()), "len": int(f.len())}
+    raw = bytes(f.pack())
+    if len(raw) != f.len():
+        raise SelfCheckFailure("PacketFieldEnum: len(pack()) != len()")
+    if int.from_bytes(raw, "big") != a["val"]:
+        raise SelfCheckFailure("PacketFieldEnum: pack() is not the big-endian value")
+    f2 = PacketFieldEnum.unpack(raw + b"\x5a", 8 * len(raw))
+    if f2.val != f.val or f2.len() != f.len():
+        raise SelfCheckFailure("PacketFieldEnum: unpack(pack(f)) differs")
+    return {"raw": hx(raw), "len": int(f.len())}
+
+
+def op_pfe_with_size(a):
+    return _pfe_fields(PacketFieldEnum.with_byte_size(a["n"], a["val"]))
+
+
+def _pfe(c):
+    return PacketFieldEnum(c["pfc"], c["val"])
+
+
+def _fn(f):
+    return FailureNotice(_pfe(f["code"]), unhx(f["data"]))
+
+
+def op_pfe_eq(a):
+    x, y = _pfe(a["a"]), _pfe(a["b"])
+    return {"eq": bool(x == y)}
+
+
+def op_fn_pack(a):
+    f = _fn(a)
+    raw = bytes(f.pack())
+    if len(raw) != f.len():
+        raise SelfCheckFailure("FailureNotice: len(pack()) != len()")
+    w = f.code.len()
+    f2 = FailureNotice.unpack(raw, w)
+    if _fn_fields(f2)["data"] != _fn_fields(f)["data"] or f2.code.val != f.code.val:
+        raise SelfCheckFailure("FailureNotice: unpack(pack(f)) differs")
+    if f.code.pfc == 8 * w and (not (f2 == f) or not (f == f2)):
+        raise SelfCheckFailure("FailureNotice: unpack(pack(f)) != f under ==")
+    return {"raw": hx(raw), "len": int(f.len())}
+
+
+def op_fn_unpack(a):
+    return _fn_fields(FailureNotice.unpack(unhx(a["raw"]), a["err_bytes"], a["data_bytes"]))
+
+
+def op_fn_eq(a):
+    x, y = _fn(a["a"]), _fn(a["b"])
+    return {"eq": bool(x == y)}
 
 
 def _params(p):
-    step = None if p["step_id"] is None else PacketFieldEnum(p["step_id"]["pfc"], p["step_id"]["val"])
-    fail = None
-    if p["failure"] is not None:
-        c = p["failure"]["code"]
-        fail = FailureNotice(PacketFieldEnum(c["pfc"], c["val"]), unhx(p["failure"]["data"]))
+    step = None if p["step_id"] is None else _pfe(p["step_id"])
+    fail = None if p["failure"] is None else _fn(p["failure"])
     return VerificationParams(_req(p["req_id"]), step, fail)
 
 
-def op_s1_pack(a):
+def op_vp_pack(a):
     vp = _params(a["params"])
-    s = Service1Tm(apid=a["apid"], subservice=Subservice(a["subservice"]) if a["subservice"] in range(9) else a["subservice"],
-                   timestamp=unhx(a["timestamp"]), verif_params=vp, seq_count=a["count"],
-                   packet_version=a["version"], space_time_ref=a["time_ref"], destination_id=a["dest_id"])
-    raw = bytes(s.pack())
+    return {"raw": hx(vp.pack()), "len": int(vp.len())}
+
+
+def op_vp_verify(a):
+    _params(a["params"]).verify_against_subservice(a["subservice"])
+    return {}
+
+
+def _sub(v):
+    return Subservice(v) if v in range(9) else v
+
+
+def _s1(a):
+    vp = None if a["params"] is None else _params(a["params"])
+    return Service1Tm(apid=a["apid"], subservice=_sub(a["subservice"]), timestamp=unhx(a["timestamp"]), verif_params=vp,
+                      seq_count=a["count"], packet_version=a["version"], space_time_ref=a["time_ref"],
+                      destination_id=a["dest_id"]), vp
+
+
+def _widths(vp):
+    step_b = 1 if vp is None or vp.step_id is None else vp.step_id.len()
+    err_b = 1 if vp is None or vp.failure_notice is None else vp.failure_notice.code.len()
+    return step_b, err_b
+
+
+def _check_report(s: Service1Tm, vp: VerificationParams, raw: bytes, ts_len: int):
+    """the property's clauses on the real code alone"""
     if len(raw) != s.pus_tm.packet_len:
         raise SelfCheckFailure("len(pack()) != packet_len")
-    step_b = 1 if vp.step_id is None else vp.step_id.len()
-    err_b = 1 if vp.failure_notice is None else vp.failure_notice.code.len()
-    s2 = Service1Tm.unpack(raw, UnpackParams(len(unhx(a["timestamp"])), step_b, err_b))
+    src = bytes(s.source_data)
+    if src[:4] != bytes(vp.req_id.pack()):
+        raise SelfCheckFailure("source data does not start with the request id")
+    if not (s.tc_req_id == vp.req_id) or hash(s.tc_req_id) != hash(vp.req_id):
+        raise SelfCheckFailure("tc_req_id differs from the request id the report was built for")
+    if vp.len() != len(src):
+        raise SelfCheckFailure("VerificationParams.len() != len(source data)")
+    step_b, err_b = _widths(vp)
+    s2 = Service1Tm.unpack(raw, UnpackParams(ts_len, step_b, err_b))
     if _s1_fields(s2) != _s1_fields(s):
         raise SelfCheckFailure("decoding the packed report with matching widths returns different values")
     if not (s2 == s) or not (s == s2):
         raise SelfCheckFailure("decoded report != original under ==")
     if bytes(s2.pack()) != raw:
         raise SelfCheckFailure("decoded report re-packs differently")
-    if vp.len() != len(s.source_data):
-        raise SelfCheckFailure("VerificationParams.len() != len(source data)")
+    s3 = Service1Tm.from_tm(PusTm.unpack(raw, ts_len), UnpackParams(ts_len, step_b, err_b))
+    if not (s3 == s) or _s1_fields(s3) != _s1_fields(s):
+        raise SelfCheckFailure("from_tm(PusTm.unpack(...)) differs from the original report")
+
+
+def op_s1_pack(a):
+    s, vp = _s1(a)
+    raw = bytes(s.pack())
+    _check_report(s, vp, raw, len(unhx(a["timestamp"])))
+    return {"raw": hx(raw), "s1": _s1_fields(s), "src": hx(s.source_data)}
+
+
+def op_s1_new(a):
+    s, vp = _s1(a)
+    raw = bytes(s.pack())
+    return {"raw": hx(raw), "s1": _s1_fields(s), "src": hx(s.source_data)}
+
+
+def op_s1_eq(a):
+    x, _ = _s1(a["a"])
+    y, _ = _s1(a["b"])
+    e1, e2 = bool(x == y), bool(y == x)
+    if e1 != e2:
+        raise SelfCheckFailure("Service1Tm == is not symmetric")
+    return {"eq": e1}
+
+
+def op_s1_create(a):
+    t = a["tc"]
+    tc = PusTc(service=t["service"], subservice=t["subservice"], apid=t["apid"], app_data=unhx(t["data"]),
+               seq_count=t["count"], source_id=t["source_id"], ack_flags=t["ack"])
+    if t["version"] != 0:
+        # a telecommand whose header carries non-default version bits (as from_composite_fields would build it)
+        h = tc.sp_header
+        tc.sp_header = SpacePacketHeader(packet_type=h.packet_type, apid=h.apid, seq_count=h.seq_count, data_len=h.data_len,
+                                         sec_header_flag=h.sec_header_flag, seq_flags=h.seq_flags, ccsds_version=t["version"])
+    step = None if a["step_id"] is None else _pfe(a["step_id"])
+    fail = None if a["failure"] is None else _fn(a["failure"])
+    ts = unhx(a["timestamp"])
+    sub, apid = a["subservice"], a["apid"]
+    if sub == 1:
+        s = s1.create_acceptance_success_tm(apid, tc, ts)
+    elif sub == 2:
+        s = s1.create_acceptance_failure_tm(apid, tc, fail, ts)
+    elif sub == 3:
+        s = s1.create_start_success_tm(apid, tc, ts)
+    elif sub == 4:
+        s = s1.create_start_failure_tm(apid, tc, fail, ts)
+    elif sub == 5:
+        s = s1.create_step_success_tm(apid, tc, step, ts)
+    elif sub == 6:
+        s = s1.create_step_failure_tm(apid, tc, step, fail, ts)
+    elif sub == 7:
+        s = s1.create_completion_success_tm(apid, tc, ts)
+    elif sub == 8:
+        s = s1.create_completion_failure_tm(apid, tc, fail, ts)
+    else:
+        raise ValueError("no such helper")
+    raw = bytes(s.pack())
+    if bytes(s.source_data)[:4] != bytes(tc.sp_header.pack())[:4]:
+        raise SelfCheckFailure("report does not carry the first four octets of the telecommand's space packet header")
+    rq = RequestId.from_pus_tc(tc)
+    if not (s.tc_req_id == rq) or s.tc_req_id.as_u32() != int.from_bytes(bytes(tc.sp_header.pack())[:4], "big"):
+        raise SelfCheckFailure("tc_req_id is not the request id of the telecommand")
+    _check_report(s, VerificationParams(rq, step, fail), raw, len(ts))
     return {"raw": hx(raw), "s1": _s1_fields(s), "src": hx(s.source_data)}
 
 
 def op_s1_unpack(a):
-    s = Service1Tm.unpack(unhx(a["raw"]), UnpackParams(a["ts_len"], a["step_bytes"], a["err_bytes"]))
+    raw = unhx(a["raw"])
+    s = Service1Tm.unpack(raw, UnpackParams(a["ts_len"], a["step_bytes"], a["err_bytes"]))
+    if bytes(s.pack()) != raw[:s.pus_tm.packet_len]:
+        raise SelfCheckFailure("pack(unpack(b)) != b[:packet_len]")
+    if bytes(s.tc_req_id.pack()) != bytes(s.source_data)[:4]:
+        raise SelfCheckFailure("decoded request id is not the first four octets of the source data")
     return _s1_fields(s)
 
 
+def op_s1_from_tm(a):
+    tm = PusTm.unpack(unhx(a["raw"]), a["ts_len"])
+    return _s1_fields(Service1Tm.from_tm(tm, UnpackParams(a["ts_len"], a["step_bytes"], a["err_bytes"])))
+
+
 OPS = {"req_pack": op_req_pack, "req_unpack": op_req_unpack, "req_eq": op_req_eq, "pfe_unpack": op_pfe_unpack,
-       "pfe_pack": op_pfe_pack, "s1_pack": op_s1_pack, "s1_unpack": op_s1_unpack}
+       "pfe_pack": op_pfe_pack, "pfe_with_size": op_pfe_with_size, "pfe_eq": op_pfe_eq,
+       "s1_fn_pack": op_fn_pack, "s1_fn_unpack": op_fn_unpack, "s1_fn_eq": op_fn_eq,
+       "s1_vp_pack": op_vp_pack, "s1_vp_verify": op_vp_verify,
+       "s1_pack": op_s1_pack, "s1_new": op_s1_new, "s1_eq": op_s1_eq, "s1_create": op_s1_create,
+       "s1_unpack": op_s1_unpack, "s1_from_tm": op_s1_from_tm}
 
 WIDTHS = [1, 2, 4, 8]
+# PFC values that are not a multiple of 8 but still round (half to even) to an allowed width
+ODD_PFCS = {1: [5, 7, 9, 11], 2: [12, 13, 15, 17, 19, 20], 4: [28, 29, 31, 33, 35, 36], 8: [60, 61, 63, 65, 67, 68]}
 
 
 def rand_req(rng, tc_like=False):
@@ -131,31 +297,143 @@ def rand_req(rng, tc_like=False):
 
 
 def rand_val(rng, w):
-    return rng.choice([0, 1, (1 << (8 * w)) - 1, rng.getrandbits(8 * w)])
+    top = (1 << (8 * w)) - 1
+    return rng.choice([0, 1, top, top - 1, 1 << (8 * w - 1), 1 << (8 * (w - 1)), 0x0102030405060708 & top, rng.getrandbits(8 * w)])
 
 
-def params_for(rng, sub, sw, ew, req=None, fdata_len=None):
-    req = req or rand_req(rng, rng.random() < 0.5)
-    step = {"pfc": 8 * sw, "val": rand_val(rng, sw)} if sub in (5, 6) else None
+def rand_pfe(rng, w, exact=True):
+    pfc = 8 * w if exact else rng.choice(ODD_PFCS[w])
+    return {"pfc": pfc, "val": rand_val(rng, w)}
+
+
+def params_for(rng, sub, sw, ew, req=None, fdata_len=None, exact=True):
+    req = req or rand_req(rng, rng.random() < 0.4)
+    step = rand_pfe(rng, sw, exact) if sub in (5, 6) else None
     fail = None
     if sub % 2 == 0:
-        n = rng.choice([0, 0, 1, 2, 5, 20]) if fdata_len is None else fdata_len
-        fail = {"code": {"pfc": 8 * ew, "val": rand_val(rng, ew)}, "data": hx(rbytes(rng, n))}
+        n = rng.choice([0, 0, 1, 2, 3, 5, 8, 20]) if fdata_len is None else fdata_len
+        fail = {"code": rand_pfe(rng, ew, exact), "data": hx(rbytes(rng, n))}
     return {"req_id": req, "step_id": step, "failure": fail}
 
 
-def s1_args(rng, sub, sw, ew, ts=None):
+def s1_args(rng, sub, sw, ew, ts=None, **kw):
     ts = rng.choice([0, 1, 7, 7, 12]) if ts is None else ts
-    return {"apid": rng.randint(0, 2047), "subservice": sub, "timestamp": hx(rbytes(rng, ts)),
-            "params": params_for(rng, sub, sw, ew), "count": rng.randint(0, 16383), "version": rng.randint(0, 7),
-            "time_ref": rng.randint(0, 15), "dest_id": rng.randint(0, 65535)}
+    return {"apid": rng.choice([0, 1, 2047, rng.randint(0, 2047)]), "subservice": sub, "timestamp": hx(rbytes(rng, ts)),
+            "params": params_for(rng, sub, sw, ew, **kw), "count": rng.choice([0, 16383, rng.randint(0, 16383)]),
+            "version": rng.randint(0, 7), "time_ref": rng.randint(0, 15), "dest_id": rng.choice([0, 65535, rng.randint(0, 65535)])}
+
+
+def rand_tc(rng):
+    return {"service": rng.choice([17, 3, 200, rng.randint(0, 255)]), "subservice": rng.randint(0, 255),
+            "apid": rng.choice([0, 1, 0x7FF, rng.randint(0, 2047)]), "data": hx(rbytes(rng, rng.choice([0, 0, 1, 4, 30]))),
+            "count": rng.choice([0, 1, 16383, rng.randint(0, 16383)]), "source_id": rng.choice([0, 65535, rng.randint(0, 65535)]),
+            "ack": rng.randint(0, 15), "version": rng.choice([0, 0, 1, 5, 7])}
+
+
+def crc16(data: bytes) -> int:
+    """CRC-16/CCITT-FALSE, bit-serial (independent of the package under test)"""
+    reg = 0xFFFF
+    for x in data:
+        reg ^= x << 8
+        for _ in range(8):
+            reg = ((reg << 1) ^ 0x1021) & 0xFFFF if reg & 0x8000 else (reg << 1) & 0xFFFF
+    return reg
+
+
+def refit_crc(raw: bytes) -> bytes:
+    body = raw[:-2]
+    return body + crc16(body).to_bytes(2, "big")
+
+
+def model_pack(ops):
+    """octets of reports / telemetry packets as the *model* packs them (so that the decode stream
+    does not depend on the encoder under test); one driver call for the whole batch"""
+    res = run_driver([json.dumps(o) for o in ops])
+    out = []
+    for o, r in zip(ops, res):
+        if "ok" not in r:
+            raise InfraError(f"model refuses a generated packet: {o} -> {r}")
+        out.append(unhx(r["ok"]["raw"]))
+    return out
+
+
+def tm_args(sub, ts: bytes, src: bytes, apid, service=1, count=0, version=0, time_ref=0, dest_id=0):
+    return {"op": "tm_pack", "service": service, "subservice": sub, "timestamp": hx(ts), "data": hx(src), "apid": apid,
+            "count": count, "msg_counter": 0, "time_ref": time_ref, "dest_id": dest_id, "version": version}
+
+
+def mutate_s1(rng, a):
+    """one-field change of Service1Tm constructor arguments that keeps them valid"""
+    import copy
+    b = copy.deepcopy(a)
+    p = b["params"]
+    choices = ["apid", "count", "version", "time_ref", "dest_id", "timestamp", "req", "subservice"]
+    if p["step_id"] is not None:
+        choices += ["step_val", "step_val", "step_pfc"]
+    if p["failure"] is not None:
+        choices += ["err_val", "err_val", "err_pfc", "fdata", "fdata"]
+    k = rng.choice(choices)
+    if k == "apid":
+        b["apid"] ^= 1 << rng.randint(0, 10)
+    elif k == "count":
+        b["count"] ^= 1 << rng.randint(0, 13)
+    elif k == "version":
+        b["version"] = (b["version"] + rng.randint(1, 7)) % 8
+    elif k == "time_ref":
+        b["time_ref"] = (b["time_ref"] + rng.randint(1, 15)) % 16
+    elif k == "dest_id":
+        b["dest_id"] ^= 1 << rng.randint(0, 15)
+    elif k == "timestamp":
+        t = bytearray(unhx(b["timestamp"]))
+        if t and rng.random() < 0.7:
+            t[rng.randrange(len(t))] ^= 1 << rng.randint(0, 7)
+        else:
+            t.append(rng.getrandbits(8))
+        b["timestamp"] = hx(t)
+    elif k == "req":
+        f = rng.choice(["version", "ptype", "shf", "apid", "flags", "count"])
+        r = p["req_id"]
+        r[f] = {"version": (r[f] + 1) % 8, "ptype": 1 - r[f], "shf": 1 - r[f], "apid": r[f] ^ (1 << rng.randint(0, 10)),
+                "flags": (r[f] + 1) % 4, "count": r[f] ^ (1 << rng.randint(0, 13))}[f]
+    elif k == "subservice":
+        sub = b["subservice"]
+        same_shape = [x for x in ((1, 3, 7) if sub in (1, 3, 7) else (2, 4, 8) if sub in (2, 4, 8) else ()) if x != sub]
+        if same_shape:
+            b["subservice"] = rng.choice(same_shape)
+        else:
+            b["count"] ^= 1
+    elif k == "step_val":
+        p["step_id"]["val"] ^= 1 << rng.randint(0, p["step_id"]["pfc"] - 1)
+    elif k == "step_pfc":
+        p["step_id"]["pfc"] = rng.choice([x for x in (8, 16, 32, 64) if x != p["step_id"]["pfc"]])
+        p["step_id"]["val"] &= 0xFF
+    elif k == "err_val":
+        p["failure"]["code"]["val"] ^= 1 << rng.randint(0, p["failure"]["code"]["pfc"] - 1)
+    elif k == "err_pfc":
+        p["failure"]["code"]["pfc"] = rng.choice([x for x in (8, 16, 32, 64) if x != p["failure"]["code"]["pfc"]])
+        p["failure"]["code"]["val"] &= 0xFF
+    elif k == "fdata":
+        d = bytearray(unhx(p["failure"]["data"]))
+        if d and rng.random() < 0.6:
+            d[rng.randrange(len(d))] ^= 1 << rng.randint(0, 7)
+        elif d and rng.random() < 0.5:
+            d.pop()
+        else:
+            d.append(rng.getrandbits(8))
+        p["failure"]["data"] = hx(d)
+    return b
 
 
 class C15(Prop):
     id = "C15"
     title = "request IDs and service-1 reports"
     lean_modules = ["SpVerif.Props.C15"]
-    exhaustive_note = "all 65536 values of each request-ID word through unpack/pack; all 8 subservices x 16 width pairs x timestamp lengths 0..12; all pfc 0..80 through check_pfc"
+    exhaustive_note = ("all 65536 values of each request-ID word through unpack/pack; all 8 subservices x 16 width pairs x "
+                       "timestamp lengths 0..12 (constructor and create_* helpers); all pfc 0..80 through check_pfc; all "
+                       "(subservice 0..12 x 4 parameter shapes) through verify_against_subservice; every truncation of sampled reports")
+    trusted_base = ["PusTm layer of the report (C03 model and theorems) is reused unchanged"]
+    assumptions = ["field values, PFCs and UnpackParams widths are non-negative integers; explicit FailureNotice.unpack data lengths are non-negative",
+                   "reports whose timestamp + source data exceed the 16-bit length field are outside the domain (the tm_data setter does not validate; pack then raises struct.error)"]
 
     def impl_ops(self):
         return OPS
@@ -165,14 +443,39 @@ class C15(Prop):
                "TM_START_FAILURE": 4, "TM_STEP_SUCCESS": 5, "TM_STEP_FAILURE": 6, "TM_COMPLETION_SUCCESS": 7,
                "TM_COMPLETION_FAILURE": 8}
         got = {m.name: int(m) for m in Subservice}
-        return [] if got == exp else [f"Subservice members {got} != {exp}"]
+        d = [] if got == exp else [f"Subservice members {got} != {exp}"]
+        from spacepackets.ecss.defs import PusService
+        if int(PusService.S1_VERIFICATION) != 1:
+            d.append(f"PusService.S1_VERIFICATION = {int(PusService.S1_VERIFICATION)} != 1")
+        up = UnpackParams(3)
+        if (up.timestamp_len, up.bytes_step_id, up.bytes_err_code) != (3, 1, 1):
+            d.append("UnpackParams defaults changed")
+        if s1.ErrorCode is not PacketFieldEnum or s1.StepId is not PacketFieldEnum:
+            d.append("ErrorCode/StepId are no longer PacketFieldEnum")
+        return d
 
     def nontrivial(self, c):
         return any(v not in (0, None, False, "") for k, v in c.op.items() if k != "op")
 
+    def neighbours(self, c, rng):
+        op = c.op
+        if op["op"] in ("s1_unpack", "s1_from_tm"):
+            raw = unhx(op["raw"])
+            for sw in WIDTHS:
+                for ew in WIDTHS:
+                    yield Case({**op, "step_bytes": sw, "err_bytes": ew}, "any", tag="nb-widths")
+            for k in range(len(raw)):
+                yield Case({**op, "raw": hx(raw[:k])}, "any", tag="nb-trunc")
+        elif op["op"] in ("s1_pack", "s1_new") and op.get("params"):
+            for sub in range(1, 9):
+                for sw in WIDTHS:
+                    for ew in WIDTHS:
+                        a = s1_args(rng, sub, sw, ew, ts=len(op["timestamp"]) // 2)
+                        yield Case({"op": "s1_pack", **a}, "valid", tag="nb-config")
+
     def cases(self, rng: random.Random, tier: str) -> Iterator[Case]:
         thorough = tier == "thorough"
-        # request id: exhaustive words through the decoder
+        # ---------------------------------------------------------------- request id
         for word in range(2):
             other = rng.getrandbits(16)
             for w in range(65536):
@@ -187,30 +490,100 @@ class C15(Prop):
                 r = rand_req(rng)
                 r.update(apid=apid, count=count)
                 yield Case({"op": "req_pack", **r}, "valid", tag="boundary")
-        for _ in range(20000 if thorough else 3000):
+        for ver in range(8):
+            for pt in range(2):
+                for shf in range(2):
+                    for fl in range(4):
+                        yield Case({"op": "req_pack", "version": ver, "ptype": pt, "shf": shf, "flags": fl,
+                                    "apid": rng.randint(0, 2047), "count": rng.randint(0, 16383)}, "valid", tag="flag-sweep")
+        for _ in range(20000 if thorough else 2500):
             a, b = rand_req(rng), rand_req(rng)
-            if rng.random() < 0.5:
+            if rng.random() < 0.6:
                 b = dict(a)
-                if rng.random() < 0.5:
+                if rng.random() < 0.6:
                     k = rng.choice(["version", "ptype", "shf", "apid", "flags", "count"])
                     b[k] = {"version": (a[k] + 1) % 8, "ptype": 1 - a[k], "shf": 1 - a[k], "apid": a[k] ^ (1 << rng.randint(0, 10)),
                             "flags": (a[k] + 1) % 4, "count": a[k] ^ (1 << rng.randint(0, 13))}[k]
             yield Case({"op": "req_eq", "a": a, "b": b}, "valid", tag="eq")
             yield Case({"op": "req_pack", **a}, "valid", tag="random")
-        # packet field enum
+        # ---------------------------------------------------------------- packet field enum
         for pfc in range(0, 81):
             n = int(round(pfc / 8))
             ok = n in (1, 2, 4, 8)
             yield Case({"op": "pfe_pack", "pfc": pfc, "val": 1}, "valid" if ok else "invalid", errclass=not ok, tag="pfc-sweep")
             yield Case({"op": "pfe_unpack", "pfc": pfc, "raw": hx(rbytes(rng, 9))}, "valid" if ok else "invalid", errclass=not ok, tag="pfc-sweep")
+        for n in range(0, 11):
+            ok = n in (1, 2, 4, 8)
+            yield Case({"op": "pfe_with_size", "n": n, "val": rng.getrandbits(8)}, "valid" if ok else "invalid", errclass=not ok, tag="with-size")
         for w in WIDTHS:
-            for v in [0, 1, (1 << (8 * w)) - 1, rng.getrandbits(8 * w)]:
-                yield Case({"op": "pfe_pack", "pfc": 8 * w, "val": v}, "valid", tag="pfe")
-            yield Case({"op": "pfe_pack", "pfc": 8 * w, "val": 1 << (8 * w)}, "invalid", errclass=True, tag="pfe-too-large")
+            top = (1 << (8 * w)) - 1
+            for v in sorted({0, 1, 255, 256, top - 1, top, 1 << (8 * w - 1), 0x0102030405060708 & top, rng.getrandbits(8 * w)} - {top + 1}):
+                if v <= top:
+                    yield Case({"op": "pfe_pack", "pfc": 8 * w, "val": v}, "valid", tag="pfe")
+            for pfc in ODD_PFCS[w]:
+                yield Case({"op": "pfe_pack", "pfc": pfc, "val": rand_val(rng, w)}, "valid", tag="pfe-odd-pfc")
+            for v in (top + 1, top + 2, 1 << 70):
+                yield Case({"op": "pfe_pack", "pfc": 8 * w, "val": v}, "invalid", errclass=True, tag="pfe-too-large")
             for ln in range(0, w):
                 yield Case({"op": "pfe_unpack", "pfc": 8 * w, "raw": hx(rbytes(rng, ln))}, "invalid", errclass=True, tag="pfe-short")
-        # service 1 reports: all subservices x width pairs x timestamp lengths
-        reps = 3 if thorough else 1
+            for ln in (w, w + 1, w + 9):
+                yield Case({"op": "pfe_unpack", "pfc": 8 * w, "raw": hx(rbytes(rng, ln))}, "valid", tag="pfe-decode")
+            if w <= 2:
+                for v in range(256 if w == 1 else 0, 256 if w == 1 else 65536, 1 if w == 1 else 257):
+                    yield Case({"op": "pfe_unpack", "pfc": 8 * w, "raw": hx(v.to_bytes(w, "big"))}, "valid", tag="pfe-sweep")
+            if w == 1:
+                for v in range(256):
+                    yield Case({"op": "pfe_unpack", "pfc": 8, "raw": hx(bytes([v]))}, "valid", tag="pfe-sweep")
+        for _ in range(2000 if thorough else 300):
+            wa, wb = rng.choice(WIDTHS), rng.choice(WIDTHS)
+            a = rand_pfe(rng, wa, rng.random() < 0.8)
+            b = dict(a) if rng.random() < 0.5 else (rand_pfe(rng, wb) if rng.random() < 0.5 else {"pfc": a["pfc"], "val": a["val"] ^ 1})
+            yield Case({"op": "pfe_eq", "a": a, "b": b}, "valid", tag="pfe-eq")
+        # ---------------------------------------------------------------- failure notice
+        for ew in WIDTHS:
+            for n in (0, 1, 2, 7, 40):
+                for exact in (True, False):
+                    f = {"code": rand_pfe(rng, ew, exact), "data": hx(rbytes(rng, n))}
+                    yield Case({"op": "s1_fn_pack", **f}, "valid", tag="fn-pack")
+                raw = rbytes(rng, ew + n)
+                yield Case({"op": "s1_fn_unpack", "raw": hx(raw), "err_bytes": ew, "data_bytes": None}, "valid", tag="fn-unpack")
+                for nd in sorted({0, 1, n - 1, n, n + 1, n + 5} - {-1}):
+                    yield Case({"op": "s1_fn_unpack", "raw": hx(raw + rbytes(rng, 2)), "err_bytes": ew, "data_bytes": nd}, "valid", tag="fn-unpack-len")
+            for ln in range(ew):
+                yield Case({"op": "s1_fn_unpack", "raw": hx(rbytes(rng, ln)), "err_bytes": ew, "data_bytes": rng.choice([None, 0, 3])},
+                           "invalid", errclass=True, tag="fn-short")
+            yield Case({"op": "s1_fn_pack", "code": {"pfc": 8 * ew, "val": 1 << (8 * ew)}, "data": "00"}, "invalid", errclass=True, tag="fn-too-large")
+        for bad in (0, 3, 5, 6, 7, 9, 16):
+            yield Case({"op": "s1_fn_unpack", "raw": hx(rbytes(rng, 20)), "err_bytes": bad, "data_bytes": None}, "invalid", errclass=True, tag="fn-bad-width")
+        for _ in range(2000 if thorough else 300):
+            ew = rng.choice(WIDTHS)
+            a = {"code": rand_pfe(rng, ew), "data": hx(rbytes(rng, rng.choice([0, 1, 4])))}
+            r = rng.random()
+            if r < 0.4:
+                b = {"code": dict(a["code"]), "data": a["data"]}
+            elif r < 0.6:
+                b = {"code": dict(a["code"]), "data": a["data"] + "00"}
+            elif r < 0.8:
+                b = {"code": {"pfc": a["code"]["pfc"], "val": a["code"]["val"] ^ 1}, "data": a["data"]}
+            else:
+                b = {"code": rand_pfe(rng, rng.choice(WIDTHS)), "data": hx(rbytes(rng, rng.choice([0, 1, 4])))}
+            yield Case({"op": "s1_fn_eq", "a": a, "b": b}, "valid", tag="fn-eq")
+        # ---------------------------------------------------------------- verification params
+        shapes = [(False, False), (True, False), (False, True), (True, True)]
+        for sub in list(range(0, 13)) + [255, rng.randint(13, 254)]:
+            for has_step, has_fail in shapes:
+                p = {"req_id": rand_req(rng), "step_id": rand_pfe(rng, rng.choice(WIDTHS)) if has_step else None,
+                     "failure": {"code": rand_pfe(rng, rng.choice(WIDTHS)), "data": hx(rbytes(rng, rng.choice([0, 3])))} if has_fail else None}
+                ok = (has_fail == (sub % 2 == 0)) and (has_step == (sub in (5, 6)))
+                yield Case({"op": "s1_vp_verify", "params": p, "subservice": sub}, "valid" if ok else "invalid", errclass=not ok, tag="verify")
+        for sw in WIDTHS:
+            for ew in WIDTHS:
+                for sub in (1, 2, 5, 6):
+                    for exact in (True, False):
+                        yield Case({"op": "s1_vp_pack", "params": params_for(rng, sub, sw, ew, exact=exact)}, "valid", tag="vp-pack")
+        # ---------------------------------------------------------------- service 1 reports
+        # all subservices x width pairs x timestamp lengths, through the constructor and the helpers
+        reps = 4 if thorough else 2
         for sub in range(1, 9):
             for sw in WIDTHS:
                 for ew in WIDTHS:
@@ -218,15 +591,79 @@ class C15(Prop):
                         for _ in range(reps):
                             a = s1_args(rng, sub, sw, ew, ts)
                             yield Case({"op": "s1_pack", **a}, "valid", tag=f"sub{sub}")
-        # decode with suffix, with other widths, truncations
-        for i in range(3000 if thorough else 400):
+                        if ts % 2 == 0 or thorough:
+                            p = params_for(rng, sub, sw, ew)
+                            yield Case({"op": "s1_create", "subservice": sub, "apid": rng.randint(0, 2047), "tc": rand_tc(rng),
+                                        "step_id": p["step_id"], "failure": p["failure"], "timestamp": hx(rbytes(rng, ts))},
+                                       "valid", tag=f"create{sub}")
+        # boundary: the largest source data the 16-bit length field can describe (and one octet less)
+        for sub, ts in ((2, 0), (6, 7), (8, 12)):
+            for slack in (0, 1):
+                sw, ew = rng.choice(WIDTHS), rng.choice(WIDTHS)
+                n = 65527 - ts - 4 - ew - (sw if sub == 6 else 0) - slack
+                a = s1_args(rng, sub, sw, ew, ts, fdata_len=n)
+                yield Case({"op": "s1_pack", **a}, "valid", tag="max-length")
+        # reports without verification parameters (empty request id, no source data)
+        for sub in range(0, 10):
+            a = s1_args(rng, 1, 1, 1)
+            a.update(subservice=sub, params=None)
+            yield Case({"op": "s1_new", **a}, "valid", tag="no-params")
+        # invalid constructor arguments together with a mismatching parameter set: refused either way
+        for _ in range(40):
+            a = s1_args(rng, rng.randint(1, 8), 1, 1)
+            a[rng.choice(["apid", "count"])] = rng.choice([-1, 2048 if rng.random() < 0.5 else 16384, 1 << 20])
+            if a["apid"] in range(2048) and a["count"] in range(16384):
+                a["apid"] = 2048
+            yield Case({"op": "s1_new", **a}, "invalid", errclass=True, tag="bad-ctor-args")
+        for sub in (-1, 256, 1000):
+            a = s1_args(rng, 1, 1, 1)
+            a.update(subservice=sub)
+            yield Case({"op": "s1_new", **a}, "invalid", tag="bad-subservice")
+        # whole-object equality
+        for _ in range(3000 if thorough else 500):
             sub = rng.randint(1, 8)
-            sw, ew = rng.choice(WIDTHS), rng.choice(WIDTHS)
-            a = s1_args(rng, sub, sw, ew)
+            a = s1_args(rng, sub, rng.choice(WIDTHS), rng.choice(WIDTHS))
+            import copy
+            b = copy.deepcopy(a) if rng.random() < 0.35 else mutate_s1(rng, a)
+            yield Case({"op": "s1_eq", "a": a, "b": b}, "valid", tag="s1-eq")
+        # same source-data octets, different field boundaries: only the parameter comparison tells them apart
+        for _ in range(300 if thorough else 60):
+            sub = rng.choice([2, 4, 6, 8])
+            a = s1_args(rng, sub, 1, 1)
+            import copy
+            b = copy.deepcopy(a)
+            pa, pb = a["params"], b["params"]
+            x = rbytes(rng, 3)
+            if sub == 6 and rng.random() < 0.6:
+                pa["step_id"], pa["failure"]["code"] = {"pfc": 16, "val": x[0] << 8 | x[1]}, {"pfc": 8, "val": x[2]}
+                pb["step_id"], pb["failure"]["code"] = {"pfc": 8, "val": x[0]}, {"pfc": 16, "val": x[1] << 8 | x[2]}
+            else:
+                tail = unhx(pa["failure"]["data"])
+                pa["failure"] = {"code": {"pfc": 16, "val": x[0] << 8 | x[1]}, "data": hx(x[2:] + tail)}
+                pb["failure"] = {"code": {"pfc": 8, "val": x[0]}, "data": hx(x[1:] + tail)}
+            yield Case({"op": "s1_eq", "a": a, "b": b}, "valid", tag="s1-eq-same-octets")
+        # decode with suffix, with other widths, truncations, substitutions (octets packed by the model)
+        n_dec = 3000 if thorough else 400
+        dec_args = []
+        for i in range(n_dec):
+            sub = rng.randint(1, 8) if i >= 8 else i + 1
+            dec_args.append(s1_args(rng, sub, rng.choice(WIDTHS), rng.choice(WIDTHS)))
+        dec_raw = model_pack([{"op": "s1_pack", **a} for a in dec_args])
+        short_ops, short_meta = [], []
+        for i, (a, raw) in enumerate(zip(dec_args, dec_raw)):
+            sub = a["subservice"]
+            p = a["params"]
+            sw = p["step_id"]["pfc"] // 8 if p["step_id"] else rng.choice(WIDTHS)
+            ew = p["failure"]["code"]["pfc"] // 8 if p["failure"] else rng.choice(WIDTHS)
             ts = len(a["timestamp"]) // 2
-            raw = unhx(OPS["s1_pack"](a)["raw"])
             sfx = rng.choice([b"", rbytes(rng, 1), rbytes(rng, 9)])
-            yield Case({"op": "s1_unpack", "raw": hx(raw + sfx), "ts_len": ts, "step_bytes": sw, "err_bytes": ew}, "valid", tag="decode+suffix")
+            # widths the report does not use may be anything
+            sw_d = sw if sub in (5, 6) else rng.choice(WIDTHS + [0, 3, 200])
+            ew_d = ew if sub % 2 == 0 else rng.choice(WIDTHS + [0, 3, 200])
+            if sub in (2, 4, 8):
+                sw_d = rng.choice(WIDTHS + [0, 3])
+            yield Case({"op": "s1_unpack", "raw": hx(raw + sfx), "ts_len": ts, "step_bytes": sw_d, "err_bytes": ew_d}, "valid", tag="decode+suffix")
+            yield Case({"op": "s1_from_tm", "raw": hx(raw + sfx), "ts_len": ts, "step_bytes": sw_d, "err_bytes": ew_d}, "valid", tag="from-tm")
             for sw2 in WIDTHS + [0, 3]:
                 for ew2 in WIDTHS + [0, 3]:
                     if (sw2, ew2) != (sw, ew) and rng.random() < 0.3:
@@ -234,28 +671,55 @@ class C15(Prop):
             if i % 8 == 0:
                 for k in range(len(raw)):
                     yield Case({"op": "s1_unpack", "raw": hx(raw[:k]), "ts_len": ts, "step_bytes": sw, "err_bytes": ew}, "invalid", tag="truncation")
+                # truncated source data with a consistent length field and CRC
+                src = raw[13 + ts:-2]
+                for k in range(len(src)):
+                    short_ops.append(tm_args(sub, unhx(a["timestamp"]), src[:k], a["apid"], count=a["count"], version=a["version"],
+                                             time_ref=a["time_ref"], dest_id=a["dest_id"]))
+                    full = k >= 4 + (sw if sub in (5, 6) else 0) + (ew if sub % 2 == 0 else 0)
+                    short_meta.append((ts, sw, ew, full))
+            if i % 4 == 0:
+                for sub2 in list(range(0, 11)) + [255]:
+                    m = bytearray(raw)
+                    m[8] = sub2
+                    yield Case({"op": "s1_unpack", "raw": hx(refit_crc(bytes(m))), "ts_len": ts, "step_bytes": sw, "err_bytes": ew}, "any", tag="subservice-substitution")
+                for pos in range(len(raw)):
+                    if pos in (4, 5):
+                        continue
+                    m = bytearray(raw)
+                    m[pos] ^= 1 << rng.randint(0, 7)
+                    yield Case({"op": "s1_unpack", "raw": hx(bytes(m)), "ts_len": ts, "step_bytes": sw, "err_bytes": ew}, "invalid", tag="bit-flip")
+                    if pos >= 13 + ts and pos < len(raw) - 2 and rng.random() < 0.5:
+                        yield Case({"op": "s1_unpack", "raw": hx(refit_crc(bytes(m))), "ts_len": ts, "step_bytes": sw, "err_bytes": ew}, "any", tag="source-data-substitution")
+        for raw, (ts, sw, ew, full) in zip(model_pack(short_ops), short_meta):
+            yield Case({"op": "s1_unpack", "raw": hx(raw), "ts_len": ts, "step_bytes": sw, "err_bytes": ew},
+                       "valid" if full else "invalid", tag="short-source-data")
         # parameter sets that do not match the subservice are refused
         for sub in range(1, 9):
-            for has_step in (False, True):
-                for has_fail in (False, True):
-                    want_fail = sub % 2 == 0
-                    want_step = sub in (5, 6)
-                    if has_step == want_step and has_fail == want_fail:
-                        continue
+            for has_step, has_fail in shapes:
+                want_fail = sub % 2 == 0
+                want_step = sub in (5, 6)
+                if has_step == want_step and has_fail == want_fail:
+                    continue
+                for _ in range(3):
                     a = s1_args(rng, sub, 1, 2)
                     p = a["params"]
-                    p["step_id"] = {"pfc": 16, "val": 7} if has_step else None
-                    p["failure"] = {"code": {"pfc": 8, "val": 3}, "data": "aa"} if has_fail else None
+                    p["step_id"] = rand_pfe(rng, rng.choice(WIDTHS)) if has_step else None
+                    p["failure"] = {"code": rand_pfe(rng, rng.choice(WIDTHS)), "data": hx(rbytes(rng, rng.choice([0, 1, 6])))} if has_fail else None
                     yield Case({"op": "s1_pack", **a}, "invalid", errclass=True, tag="params-mismatch")
         # arbitrary subservice values / short source data through the decoder
-        from spacepackets.ecss.tm import PusTm
-        for _ in range(4000 if thorough else 600):
+        arb_ops, arb_meta = [], []
+        for _ in range(4000 if thorough else 700):
             sub = rng.choice(list(range(0, 12)) + [rng.randint(0, 255)])
             ts = rng.choice([0, 7])
-            src = rbytes(rng, rng.choice([0, 1, 3, 4, 5, 6, 8, 12, 13, 20]))
-            tm = PusTm(service=1, subservice=sub, timestamp=rbytes(rng, ts), source_data=src, apid=rng.randint(0, 2047))
-            yield Case({"op": "s1_unpack", "raw": hx(tm.pack()), "ts_len": ts, "step_bytes": rng.choice(WIDTHS + [0, 3]),
-                        "err_bytes": rng.choice(WIDTHS + [0, 5])}, "any", tag="arbitrary-tm")
+            src = rbytes(rng, rng.choice([0, 1, 3, 4, 5, 6, 7, 8, 9, 12, 13, 20]))
+            arb_ops.append(tm_args(sub, rbytes(rng, ts), src, rng.randint(0, 2047), service=rng.choice([1, 1, 1, 17])))
+            arb_meta.append((ts, rng.choice(["s1_unpack", "s1_from_tm"]), rng.choice(WIDTHS + [0, 3]), rng.choice(WIDTHS + [0, 5])))
+        for raw, (ts, op, sb, eb) in zip(model_pack(arb_ops), arb_meta):
+            yield Case({"op": op, "raw": hx(raw), "ts_len": ts, "step_bytes": sb, "err_bytes": eb}, "any", tag="arbitrary-tm")
+        for _ in range(2000 if thorough else 200):
+            yield Case({"op": "s1_unpack", "raw": hx(rbytes(rng, rng.choice([0, 5, 6, 13, 15, 22, 30]))), "ts_len": rng.choice([0, 7]),
+                        "step_bytes": rng.choice(WIDTHS), "err_bytes": rng.choice(WIDTHS)}, "any", tag="random-octets")
 
 
 PROP = C15()
